@@ -306,6 +306,11 @@ def run(ctx, prop):
                         bound_cases.append(ps)
             bound_cases.append([P(d, "interface", None, f"o{i}") for i in range(n)])
             bound_cases.append([P(d, "IT", None, f"o{i}") for i in range(n - 1)] + [P(od, "interface", None, "z"), P(od, "interface", None, "z2")])
+    # two ways of contributing to one class at once (objects in struct fields plus an object
+    # array; fifteen buffers plus a lone small value), shared with C04 and C16 (vlib/bounds.py)
+    from .. import bounds as BD
+    bound_cases += BD.extra_lists()
+    one_method = BD.one_method
     for params in bound_cases:
         case = one_method(params)
         exp = mink_counts(case, case["files"][0]["nodes"][-1]["members"][0])
@@ -313,6 +318,17 @@ def run(ctx, prop):
             root = os.path.join(tmp, "src")
             idl.render_case(case, root)
             rc, err = E.run_idlc(ctx, root, "main.idl", [], "c", os.path.join(tmp, "o.h"))
+            if max(exp) > 15 and len(params) <= 40:
+                # the decision must not depend on the backend flags: skeleton-only, C++ and Rust runs
+                for mode in ("c-skel", "cpp-skel", "rust"):
+                    o2 = os.path.join(tmp, "o-" + mode)
+                    if mode == "rust":
+                        os.makedirs(o2, exist_ok=True)
+                    rc2, _ = E.run_idlc(ctx, root, "main.idl", [], mode, o2)
+                    ctx.bump("evaluations")
+                    if rc2 == 0:
+                        st["oracle_fail"].append({"case": {"id": "bound", "counts": exp, "params": len(params), "backend": mode}, "failures": [
+                            {"kind": "bound", "error": "accepted although a class exceeds 15 (with these backend flags only)", "cli_exit": rc2}]})
             model, impl = E.e1(ctx, case, root)
             ctx.bump("evaluations")
             vm = E.verdict_of(model) == "accept"
